@@ -21,6 +21,12 @@ def adversarial(rng, prog):
     """rename packages, types, parameters of `prog` from the adversarial pools; add package-level declarations"""
     # packages
     names = rng.sample(PKG_POOL, 3)
+    targeted = rng.random() < 0.4
+    if targeted:
+        # the generated error / cleanup variable would be err2 / cleanup2: name packages just so
+        names[0], names[1] = rng.choice([("err2", "cleanup2"), ("cleanup2", "err2"), ("err2", "err3"), ("cleanup2", "cleanup3")])
+        if names[2] in names[:2]:
+            names[2] = "server"
     if rng.random() < 0.3:
         names[1] = names[0]                 # two packages with the same name, different directories
     for k, lp in enumerate(["liba", "libb"]):
@@ -52,7 +58,10 @@ def adversarial(rng, prog):
                 it["fn"] = "Mk%d" % count[it["pkg"]]
     # extra declarations in the injector package (never a name the package's own files need)
     taken = set(used["app"]) | quals | {"Anchor"}
-    for nm in rng.sample(DECL_POOL, rng.randint(0, 4)):
+    pool = rng.sample(DECL_POOL, rng.randint(0, 4))
+    if targeted:
+        pool = ["err", "cleanup"] + [x for x in pool if x not in ("err", "cleanup")]
+    for nm in pool:
         if nm in taken:
             continue
         taken.add(nm)
